@@ -231,3 +231,33 @@ def rs_flag(state, key):
 def rs_requires_pending(state):
     """Number of unmet REQUIRES conditions pending in the state."""
     return len(state['REQUIRES'])
+
+
+def _val_bool_builder(ts):
+    _smt.CTX.sort('Val')
+    _smt.CTX.fun('val_bool', ['Val'], 'Bool')
+    return _smt.CTX.app('val_bool', ts[0])
+
+
+def _val_str_builder(ts):
+    _smt.CTX.sort('Val')
+    _smt.CTX.fun('val_str', ['Val'], 'String')
+    return _smt.CTX.app('val_str', ts[0])
+
+
+@_native('(Val) -> bool', _val_bool_builder)
+def val_bool(v):
+    """The boolean an opaque value is (meaningful when the producer's contract says it is a bool)."""
+    return bool(v)
+
+
+@_native('(Val) -> str', _val_str_builder)
+def val_str(v):
+    """The string an opaque value is."""
+    return str(v)
+
+
+@uninterp('(str) -> bool', note="oracle: the REQUIRES condition holds in this process/environment (directive._is_requires_satisfied)")
+def requires_satisfied(arg):
+    from xdoctest import directive
+    return directive._is_requires_satisfied(arg)
